@@ -183,7 +183,7 @@ Definition one_more_gstep (panics : nat -> bool) (s : gstate) (x : nat) : option
   match x, gd s with
   | O, GLoop =>
     if Nat.leb (gi s) (gn s)
-    then Some (mkGS (gn s) (S (gi s)) (S (gwg s)) GLoop (gtasks s ++ [mkWT WSp (panics (gi s))]))
+    then Some (mkGS (gn s) (S (gi s)) (S (gwg s)) GLoop (gtasks s ++ [mkWT WSp (if panics (gi s) then BPanic else BRet)]))
     else Some (mkGS (gn s) (gi s) (gwg s) GWait (gtasks s))
   | _, _ => gstep panics s x
   end.
@@ -205,7 +205,7 @@ Definition fx_no_release_on_panic_wstep (s : wstate) (x : nat) : option wstate :
       match wst tk, wpanics tk with
       | WRun, true =>   (* wg.Done() runs (deferred), the slot is not given back *)
         Some (mkWS (wvar s) (wcap s) (wc s) (pred (wwg s)) (witems s) (wfailed s) (wd s)
-                   (upd_nth (wtasks s) k (mkWT WDn true)))
+                   (upd_nth (wtasks s) k (mkWT WDn BPanic)))
       | _, _ => wstep s x
       end
     | None => None
@@ -217,14 +217,14 @@ Definition fx_no_release_on_panic_wstep (s : wstate) (x : nat) : option wstate :
    taken and the dispatcher is blocked for ever with the second item in hand *)
 Theorem fx_no_release_on_panic_leak_refuted :
   exists n items sched,
-    let s := run fx_no_release_on_panic_wstep (winit WFx n items) sched in
-    wlive s = 0 /\ wc s = n /\ 0 < n /\ wd s = DAcq (Some false) /\ fx_no_release_on_panic_wstep s 0 = None.
+    let s := run fx_no_release_on_panic_wstep (winit WFx n (bp items)) sched in
+    wlive s = 0 /\ wc s = n /\ 0 < n /\ wd s = DAcq (Some BRet) /\ fx_no_release_on_panic_wstep s 0 = None.
 Proof.
   exists 1, [true; false], [0;0;0;0; 1;1; 0;0].
   vm_compute. repeat split; auto.
 Qed.
 
 Example real_fx_releases_on_panic :
-  let s := wexec WFx 1 [true; false] [0;0;0;0; 1;1;1; 0;0;0;0; 2;2;2; 0;0;0] in
+  let s := wexec WFx 1 (bp [true; false]) [0;0;0;0; 1;1;1; 0;0;0;0; 2;2;2; 0;0;0] in
   (map wst (wtasks s), wc s, wd s) = ([WDn; WDn], 0, DDone).
 Proof. vm_compute. reflexivity. Qed.
